@@ -208,12 +208,19 @@ def make_model(kind, seed):
 
 def job_fn(job):
     pm = make_model(job['kind'], job['seed'])
+    if job.get('shared_pop'):
+        # a third population a2 that is the SAME PopulationTemplate object as a (values given for a must not reach a2)
+        import copy
+        pm.pops['a2'] = copy.deepcopy(pm.pops['a'])
     spec = explicit_spec(pm)
     out = dict(status='ok', exp_spec=spec)
     ckw = {}
     if job['build'] == 'population':
         ct = build_population(pm)
         vec = True
+        if job.get('shared_pop'):
+            ct.populations['a2'] = ct.populations['a']
+            ct.nodes['a2'] = ct.populations['a'].node
         if job.get('node_values'):
             # values given at translation time (node_values) for population variables: one value per unit / one scalar
             import copy
@@ -223,9 +230,14 @@ def job_fn(job):
             new_g = fp()
             pm2.pops['a'].params['li/tau'] = new_tau
             pm2.pops['b'].params['o1/g'] = new_g
+            ckw = dict(node_values={'a/li/tau': np.array([float(v) for v in new_tau]), 'b/o1/g': float(new_g)})
+            if job.get('shared_pop'):
+                # (a2 gets initial values of its own, so that its units can be told apart from those of a)
+                new_x2 = [fp() for _ in range(pm.pops['a'].n)]
+                pm2.pops['a2'].params['li/x'] = new_x2
+                ckw['node_values']['a2/li/x'] = np.array([float(v) for v in new_x2])
             spec = explicit_spec(pm2)
             out['exp_spec'] = spec
-            ckw = dict(node_values={'a/li/tau': np.array([float(v) for v in new_tau]), 'b/o1/g': float(new_g)})
         if job.get('update_var'):
             # the same values through CircuitTemplate.update_var on the population variables
             import copy
@@ -281,7 +293,8 @@ def job_fn(job):
     r = dict(status='ok', res=res, tally=tally.as_dict(), src=c.src, keys=list(c.keys),
              smap={k: str(v) for k, v in c.smap.items()}, exp_spec=spec)
     # population outputs of run(): one column per unit, in unit order (tag flow)
-    if job['build'] == 'population' and not res['violations'] and job['kind'] in ('matrix', 'scalar'):
+    if job['build'] == 'population' and not res['violations'] and job['kind'] in ('matrix', 'scalar') \
+            and not job.get('shared_pop'):
         r['res']['violations'] += _population_outputs(pm, spec)
     return r
 
@@ -373,6 +386,9 @@ def run(tier='quick', seed=0, only=None, verbose=False):
         for i in range(2 if tier == 'quick' else 8):
             jobs.append(dict(key=f"pop:{kind}:{seed}:{i}|population|update_var", kind=kind, seed=seed * 100 + i,
                              build='population', vectorize=True, spec=None, update_var=True))
+            jobs.append(dict(key=f"pop:{kind}:{seed}:{i}|population|node_values|shared-population-object", kind=kind,
+                             seed=seed * 100 + i, build='population', vectorize=True, spec=None, node_values=True,
+                             shared_pop=True))
             jobs.append(dict(key=f"pop:{kind}:{seed}:{i}|population|derived-template", kind=kind, seed=seed * 100 + i,
                              build='population', vectorize=True, spec=None, derive=True))
             jobs.append(dict(key=f"pop:{kind}:{seed}:{i}|population|node_values+ordinary-edge", kind=kind,
@@ -381,7 +397,13 @@ def run(tier='quick', seed=0, only=None, verbose=False):
     if only:
         jobs = [j for j in jobs if only in j['key']]
     for j in jobs:
-        j['spec'] = explicit_spec(make_model(j['kind'], j['seed']))
+        pm_ = make_model(j['kind'], j['seed'])
+        if j.get('shared_pop'):
+            import copy
+            pm_.pops['a2'] = copy.deepcopy(pm_.pops['a'])
+            fpx = FP(700)
+            pm_.pops['a2'].params['li/x'] = [fpx() for _ in range(pm_.pops['a'].n)]
+        j['spec'] = explicit_spec(pm_)
     tvjobs.run_tv_jobs(rep, jobs, verbose=verbose, fn=job_fn)
     # run level (harness of C09): the real Euler / Heun kernels drive the emitted function of a population model with two
     # delayed Connectivity objects on one source variable; afterwards every ring buffer holds its source's recorded rows
